@@ -132,6 +132,14 @@ def check_normalize(ctx):
         any(isinstance(s, ast.Assign) and ast.unparse(s) == "%s = False" % fl for s in trig.body) and \
         any(isinstance(s, ast.If) and ast.unparse(s.test) == fl and isinstance(s.body[0], ast.Break) for s in w.body) and \
         sum(isinstance(x, ast.Break) for x in ast.walk(w)) == 1
+    if not okf and isinstance(w.test, ast.Name):
+        # the same loop written with the flag as its condition:  moved = True ; while moved: moved = False ... (trigger) moved = True
+        f2 = w.test.id
+        okf = any(isinstance(s, ast.Assign) and ast.unparse(s) == "%s = True" % f2 and s.lineno < w.lineno for s in fn.body) and \
+            any(isinstance(s, ast.Assign) and ast.unparse(s) == "%s = False" % f2 for s in w.body) and \
+            any(isinstance(s, ast.Assign) and ast.unparse(s) == "%s = True" % f2 for s in trig.body) and \
+            not any(isinstance(x, ast.Break) for x in ast.walk(w)) and \
+            sum(1 for x in ast.walk(w) if isinstance(x, ast.Name) and x.id == f2 and isinstance(x.ctx, ast.Store)) == 2
     ctx.ob("R06.2", q + ":fixed-point", okf, found=txt[:200], required="the loop is left only after a full pass in which the trigger never held", mod=RW, node=w,
            sig="fixed-point")
 
